@@ -67,7 +67,8 @@ class History:
         kinds = weights or dict(
             var=4, apply=8, neg=1, ite=4, foa=2, cofactor=2, compose=2,
             rename=2, quantify=3, cube=1, hold=4, release=2, gc=2, swap=2,
-            sift=1, order=1, query=2, declare=1, undeclare=1)
+            sift=1, order=1, query=2, declare=1, undeclare=1, gcroots=1, pairs=0.5,
+            image=0.5, preimage=0.5)
         k = rng.choices(list(kinds), weights=list(kinds.values()))[0]
         self.ctx.count('op:' + k)
         mid = self.mid
@@ -148,6 +149,24 @@ class History:
             rng.shuffle(perm)
             s.op(mid, 'reorder', ','.join(f'{v}={i}' for i, v in enumerate(perm)))
             self.prune()
+        elif k == 'gcroots':
+            # the public rooted collection: only the count-0 cascade from these nodes is freed
+            rs = [self.pick() for _ in range(rng.randint(1, 3))]
+            s.op(mid, 'gc_roots', ','.join(map(str, rs)))
+            self.prune()
+        elif k == 'pairs' and len(names) >= 2:
+            vs = rng.sample(names, 2 * rng.randint(1, len(names) // 2))
+            s.op(mid, 'reorder_pairs', ','.join(f'{vs[2 * i]}={vs[2 * i + 1]}' for i in range(len(vs) // 2)))
+            self.prune()
+        elif k in ('image', 'preimage') and len(names) >= 2:
+            # one pair of neighbours renamed, one of them quantified; operands from the pool (the
+            # call may be refused by the code's own assertions: both sides must agree on that too)
+            i = rng.randrange(len(names) - 1)
+            x, xp = self.b._level_to_var[i], self.b._level_to_var[i + 1]
+            if rng.random() < 0.5:
+                x, xp = xp, x
+            rn, q = (f'n:{xp}=n:{x}', f'n:{x}') if k == 'image' else (f'n:{x}=n:{xp}', f'n:{xp}')
+            self.add(s.op(mid, k, self.pick(), self.pick(), rn, q, rng.randint(0, 1)))
         elif k == 'query':
             u = self.pick()
             q = rng.choice(['support', 'count', 'pick_iter', 'to_expr', 'descendants', 'len', 'succ'])
